@@ -90,7 +90,10 @@ def obsOfJson (j : Json) : Except String MachineObs := do
   pure { err := optStrField j "err", postings := ← postingsField j "postings",
          txMeta := ← metaField j "meta",
          accountMeta := ← (match optField j "am" with | some v => accMetaOfJson v | none => pure []),
-         calls := ← (← arrField j "calls").mapM mcallOfJson }
+         calls := ← (← arrField j "calls").mapM mcallOfJson,
+         attempt := (match optField j "attempt" with
+                     | some v => (match natOf v with | .ok n => n | .error _ => 1)
+                     | none => 1) }
 
 def chartTableOf (j : Json) : Except String (List (String × Meta)) := do
   let rows ← arrField j "chartTable"
